@@ -1,5 +1,210 @@
-(* C07 — placeholder while the model is being tied to the code *)
-From Coq Require Import List.
-From Verif Require Import C07_Txn.
-Theorem c07_placeholder : True. Proof. exact I. Qed.
-Print Assumptions c07_placeholder.
+(* C07 — Transactions are atomic and follow the transactional protocol order.
+   Public statements only.  Model: model/C07_Txn.v — producer instances (TransactionManager state
+   through the TRANSLATED transition table, pending / registered partitions, pending offsets, the
+   sender's single transactional task with its priority, muting, flush_for_commit, batches) composed
+   with the environment (transaction coordinator, partition logs with markers, the group's
+   transactional offsets as the log of the pseudo partition GROUPP) and the read-committed reader.
+   [run s tr = Some s']: the model accepts the event trace tr.  Traces recorded from the real
+   producer under the simulator (faults, coordinator moves, kills, replacement instances) are
+   replayed by [replay] inside Coq on every run and must be accepted with equal logs, coordinator
+   state, read-committed views and outcomes (harness/c07.py).
+   [run_ob]: accepted AND every event satisfies the client obligations [ob]
+     1 add_before_produce  2 end_after_acks (no failed batch at commit)
+     3 no_write_outside_txn  4 end_reaches_coordinator. *)
+From Coq Require Import ZArith List Bool Arith.
+From Verif Require Import Imp TxnTable C16_TxnApi C07_Txn C07_client C07_env C07_atomic C07_misc.
+Import ListNotations.
+Local Open Scope nat_scope.
+
+(* ===== atomicity, for every environment behaviour of the coordinator model and every fault
+   sequence, IF the client obligations hold ===================================================== *)
+Theorem c07_atomic : forall n tr s, run_ob (g0 n) tr = Some s ->
+  (* (a) what a read-committed reader sees of any partition (the group's offsets included) was
+         written by a transaction whose commit returned, or whose EndTxn(commit) was applied by the
+         coordinator (outcome still unknown to the application) *)
+  (forall i k x p, In ((i, k), x) (rc_view_t (log_of p (glog (genv s)))) -> commit_known s i k) /\
+  (* (b) nothing of a transaction whose abort returned is visible *)
+  (forall i k acc, In ((i, k), OAborted, acc) (ended s) ->
+     forall x p, ~ In ((i, k), x) (rc_view_t (log_of p (glog (genv s))))) /\
+  (* (c) nothing of a transaction for which no EndTxn(commit) was applied is visible — open, failed,
+         fenced and killed ones included *)
+  (forall i c, cl s i = Some c -> csent c = false -> ~ ended_committed s (i, kcur c) ->
+     forall x p, ~ In ((i, kcur c), x) (rc_view_t (log_of p (glog (genv s))))) /\
+  (* (d) every record and every offset commit of a transaction whose commit returned is visible, or
+         becomes visible with the commit markers the coordinator is writing *)
+  (forall i k acc, In ((i, k), OCommitted, acc) (ended s) ->
+     forall x p, In (x, p) acc -> vop s (i, k) x p) /\
+  (* (e) all or nothing while in doubt: once EndTxn(commit) was applied, everything accepted *)
+  (forall i c, cl s i = Some c -> csent c = true ->
+     forall x p, In (x, p) (accepted c) -> vop s (i, kcur c) x p).
+Proof.
+  intros n tr s H. split; [|split; [|split; [|split]]].
+  - exact (visible_only_if_committed n tr s H).
+  - exact (aborted_invisible n tr s H).
+  - exact (uncommitted_invisible n tr s H).
+  - exact (committed_visible n tr s H).
+  - exact (in_doubt_all n tr s H).
+Qed.
+Print Assumptions c07_atomic.
+
+(* "pending" in (d)/(e) means: the coordinator's marker write is the only thing missing *)
+Theorem c07_pending_becomes_visible : forall s tg x p s',
+  vop s tg x p -> step s EMarkers = Some s' -> In (tg, x) (rc_view_t (log_of p (glog (genv s')))).
+Proof. exact vop_after_markers. Qed.
+Print Assumptions c07_pending_becomes_visible.
+
+(* ===== client obligations that hold on EVERY accepted trace ====================================== *)
+(* EndTxn is sent only when no batch of the transaction is queued, pending or in flight, no
+   partition and no offset entry is waiting; and unless a batch failed, everything the transaction
+   accepted has been appended by the brokers by then *)
+Theorem c07_end_after_acks : forall n tr s i commit v s',
+  run (g0 n) tr = Some s -> step s (REndTxn i commit v) = Some s' ->
+  exists c, get s i = Some c /\ queue c = [] /\ inflight c = [] /\ pend_parts c = [] /\ pend_offs c = [] /\
+            (lostb c = false -> incl (accepted c) (capp c)).
+Proof.
+  intros n tr s i commit v s' H S. eapply endtxn_after_acks; eauto.
+  eapply run_gcinv; eauto. apply gcinv_g0.
+Qed.
+Print Assumptions c07_end_after_acks.
+
+(* a batch that a leader appends belongs to the application transaction that is open in its
+   producer (state neither READY nor UNINITIALIZED, same transaction index) and carries records
+   accepted in that transaction *)
+Theorem c07_no_write_outside_txn : forall n tr s i b s',
+  run (g0 n) tr = Some s -> step s (RProduce i b VApplied) = Some s' ->
+  exists c x, nth_error (clients s) i = Some c /\ bid x = b /\ In x (bq c) /\
+              btag x = kcur c /\ cst c <> READY /\ cst c <> UNINIT /\
+              (forall y, In y (bitems x) -> In (y, bpart x) (accepted c)) /\
+              glog (genv s') = glog (genv s) ++ [(bpart x, Data (cep c) (i, kcur c) (bitems x))].
+Proof.
+  intros n tr s i b s' H S. eapply produce_in_txn; eauto. eapply run_gcinv; eauto. apply gcinv_g0.
+Qed.
+Print Assumptions c07_no_write_outside_txn.
+
+(* a batch is handed to a Produce request only for a partition that is not waiting for
+   AddPartitionsToTxn (muting) and — unless error_transaction / fatal_error cleared the sets in this
+   transaction — whose AddPartitionsToTxn was acknowledged (it is in _txn_partitions) *)
+Theorem c07_add_before_produce_partial : forall n tr s i b s',
+  run (g0 n) tr = Some s -> step s (SDrain i b) = Some s' ->
+  exists c x, get s i = Some c /\ In x (queue c) /\ bid x = b /\
+              ~ In (bpart x) (pend_parts c) /\ (cerr c = false -> In (bpart x) (txn_parts c)).
+Proof.
+  intros n tr s i b s' H S. eapply drain_registered; eauto.
+  eapply (run_gpinv tr (g0 n) s); eauto. apply gcinv_g0. apply gpinv_g0.
+Qed.
+Print Assumptions c07_add_before_produce_partial.
+
+(* ===== the full obligations are NOT guaranteed by the code as it is =============================== *)
+(* "the client never breaks an obligation": *)
+Definition C07_client_obligations_full : Prop :=
+  forall n tr s, run (g0 n) tr = Some s -> first_ob (g0 n) tr 0 = None.
+(* "transactions are atomic on every accepted trace" (no hypothesis on the client): *)
+Definition C07_atomic_unconditional_full : Prop :=
+  forall n tr s, run (g0 n) tr = Some s ->
+  forall i k acc, In ((i, k), OAborted, acc) (ended s) ->
+  forall x p, ~ In ((i, k), x) (rc_view_t (log_of p (glog (genv s)))).
+
+(* Both are false of the faithful model; the witnesses are traces of the REAL producer (replayed on
+   the real code by harness/c07.py on every run; known_findings.d/C07.json):
+   - abort after an abortable error sends no EndTxn, the next commit publishes the aborted record
+     (obligation 4, and atomicity itself);
+   - error_transaction un-mutes a batch for a partition that was never added (obligation 1);
+   - a batch that failed non-retriably does not prevent commit (obligation 2). *)
+Theorem c07_client_obligations_refuted :
+  ~ C07_client_obligations_full /\
+  first_ob (g0 1) w_abort_without_endtxn 0 = Some (18, 4) /\
+  first_ob (g0 1) w_unregistered_produce 0 = Some (12, 1) /\
+  first_ob (g0 1) w_commit_without_batch 0 = Some (12, 2).
+Proof.
+  destruct witness_abort_without_endtxn as (s & R & _ & _ & F).
+  split; [|repeat split; vm_compute; reflexivity].
+  intros H. specialize (H 1 _ s R). rewrite F in H. discriminate.
+Qed.
+Print Assumptions c07_client_obligations_refuted.
+
+Theorem c07_atomic_unconditional_refuted :
+  ~ C07_atomic_unconditional_full /\
+  exists s, run (g0 1) w_abort_without_endtxn = Some s /\
+            ended_tags s = [((0, 1), OAborted); ((0, 2), OCommitted)] /\
+            rc_view_t (log_of 0 (glog (genv s))) = [((0, 1), 1); ((0, 2), 2)].
+Proof.
+  destruct witness_abort_without_endtxn as (s & R & E & V & _).
+  split; [|exists s; auto].
+  intros H.
+  assert (A : exists acc, In ((0, 1), OAborted, acc) (ended s)).
+  { unfold ended_tags in E. destruct (ended s) as [|[[t o] a] l]; [discriminate|].
+    simpl in E. inversion E; subst. exists a. left. reflexivity. }
+  destruct A as (acc & A). apply (H 1 _ s R 0 1 acc A 1 0). rewrite V. left. reflexivity.
+Qed.
+Print Assumptions c07_atomic_unconditional_refuted.
+
+(* ===== fencing ==================================================================================== *)
+(* a new instance's InitProducerId bumps the epoch; from then on no request of an instance that
+   holds an older epoch is ever applied by the coordinator, the group coordinator or a leader *)
+Theorem c07_fenced_writes_rejected :
+  (forall s s', einit (genv s) = true -> step s EInitOk = Some s' -> eep (genv s') = S (eep (genv s))) /\
+  (forall tr s s' i ep, run s tr = Some s' -> started_with s i ep -> ep < eep (genv s) ->
+     Forall (fun e => applied_by e <> Some i) tr).
+Proof. split; [exact initok_bumps | exact fenced_never_applied]. Qed.
+Print Assumptions c07_fenced_writes_rejected.
+
+(* ===== ending under retriable faults (model-level variant) ======================================== *)
+(* Full statement: with only retriable faults followed by quiet, every transaction ends the way the
+   application requested.  It needs fairness of the event loop and of the environment ("after the
+   faults cease each request is eventually applied and answered"), which the trace model does not
+   express; the harness checks it on every simulated run with retriable faults only. *)
+Definition C07_retriable_eventually_ends_full : Prop :=
+  forall n tr s i c, run (g0 n) tr = Some s -> get s i = Some c ->
+  cst c = COMMITTING \/ cst c = ABORTING -> cep c = eep (genv s) ->
+  exists tr' s' c', run s tr' = Some s' /\ nth_error (clients s') i = Some c' /\ cst c' = READY.
+
+(* Proved: [mu] (partitions and offsets still to register / commit, batches still to acknowledge)
+   strictly decreases with every acknowledgement the client receives, a refused or lost request
+   (coordinator moved, loading, CONCURRENT_TRANSACTIONS, connection lost, timeout) changes nothing
+   but the slot — the same request is picked again —, at measure zero the sender picks EndTxn, and
+   its acknowledgement completes the transaction with the requested outcome. *)
+Theorem c07_retriable_eventually_ends_partial :
+  (forall s i p s' c, step s (CPartAdded i p) = Some s' -> get s i = Some c ->
+     exists c', nth_error (clients s') i = Some c' /\ mu c' < mu c) /\
+  (forall s i s' c, step s (CGroupAdded i) = Some s' -> get s i = Some c -> grp c = false -> pend_offs c <> [] ->
+     exists c', nth_error (clients s') i = Some c' /\ mu c' < mu c) /\
+  (forall s i x s' c, step s (COffCommitted i x) = Some s' -> get s i = Some c ->
+     exists c', nth_error (clients s') i = Some c' /\ mu c' < mu c) /\
+  (forall s i b s' c, step s (SOk i b) = Some s' -> get s i = Some c -> cst c <> FATAL ->
+     exists c', nth_error (clients s') i = Some c' /\ mu c' < mu c) /\
+  (forall s e s' i c, step s e = Some s' -> get s i = Some c ->
+     (exists ps, e = RAddParts i ps VNot) \/ e = RAddOffs i VNot \/ (exists it, e = RToc i it VNot) \/
+     (exists cm, e = REndTxn i cm VNot) \/ e = TDone i ->
+     exists c', nth_error (clients s') i = Some c' /\ mu c' = mu c /\ cst c' = cst c /\ next_kind c' = next_kind c) /\
+  (forall c, cst c = COMMITTING \/ cst c = ABORTING -> pend_parts c = [] -> pend_offs c = [] ->
+     next_kind c = Some KEnd) /\
+  (forall s i c, get s i = Some c -> cst c = COMMITTING \/ cst c = ABORTING ->
+     pend_parts c = [] -> pend_offs c = [] -> queue c = [] -> inflight c = [] ->
+     slot c = Some (KEnd, SApplied) ->
+     exists s' c', step s (AComplete i) = Some s' /\ nth_error (clients s') i = Some c' /\ cst c' = READY /\
+       ended s' = ended s ++ [(tagof i c, match cst c with COMMITTING => OCommitted | _ => OAborted end, accepted c)]).
+Proof.
+  repeat split.
+  - exact mu_part_added.
+  - exact mu_group_added.
+  - exact mu_off_committed.
+  - exact mu_ok.
+  - exact mu_not_applied.
+  - exact mu_zero_picks_end.
+  - exact end_acknowledged_completes.
+Qed.
+Print Assumptions c07_retriable_eventually_ends_partial.
+
+(* ===== non-vacuity: a healthy run satisfies the obligations ====================================== *)
+(* begin; send(p0); send_offsets; commit — with a lost AddPartitionsToTxn reply and a retried batch *)
+Example c07_healthy_run :
+  exists s, run_ob (g0 1)
+    [EInitOk; AStart 0 0; ABegin 0; AAccept 0 1 0 0 true; TPick 0 (Some KParts); AOffsets 0 [7];
+     RAddParts 0 [0] VNot; TDone 0; TPick 0 (Some KParts); RAddParts 0 [0] VApplied; CPartAdded 0 0; TDone 0;
+     TPick 0 (Some KOffs); SDrain 0 0; RAddOffs 0 VApplied; CGroupAdded 0; TDone 0; RProduce 0 0 VApplied;
+     SRetry 0 0; SDrain 0 0; RProduce 0 0 VNot; SOk 0 0; TPick 0 (Some KToc); RToc 0 [7] VApplied;
+     COffCommitted 0 7; TDone 0; ACommitting 0; TPick 0 (Some KEnd); REndTxn 0 true VApplied; AComplete 0;
+     TDone 0; EMarkers] = Some s /\
+    rc_view (log_of 0 (glog (genv s))) = [1] /\ rc_view (log_of GROUPP (glog (genv s))) = [7] /\
+    ended_tags s = [((0, 1), OCommitted)].
+Proof. eexists. split; [vm_compute; reflexivity|]. repeat split. Qed.
